@@ -28,7 +28,7 @@ func (evA) EventTypeName() string { return "c11.A" }
 func (evB) EventTypeName() string { return "c11.B" }
 
 type fail struct {
-	Kind string `json:"kind"` // none, cb-error, cb-cancel, pre-cancel, store-read, store-stream, store-yield, sql-row
+	Kind string `json:"kind"` // none, cb-error, cb-cancel, pre-cancel, store-read, store-stream, store-yield, store-*-deadline, sql-row
 	K    int    `json:"k"`
 	Q    int    `json:"q,omitempty"`
 }
@@ -96,7 +96,7 @@ func TestC11(t *testing.T) {
 					if streams {
 						fs = append(fs, fail{Kind: "store-stream"})
 						for k := 0; k <= S; k++ {
-							fs = append(fs, fail{Kind: "store-yield", K: k})
+							fs = append(fs, fail{Kind: "store-yield", K: k}, fail{Kind: "store-yield-deadline", K: k})
 						}
 					} else {
 						bb := b
@@ -104,7 +104,7 @@ func TestC11(t *testing.T) {
 							bb = 100
 						}
 						for k := 0; k <= S/bb+1; k++ {
-							fs = append(fs, fail{Kind: "store-read", K: k})
+							fs = append(fs, fail{Kind: "store-read", K: k}, fail{Kind: "store-read-deadline", K: k})
 						}
 					}
 					if strings.HasPrefix(cfg, "sqlite") && b == batches[0] { // the bus batch size is irrelevant on the streaming path
@@ -146,6 +146,10 @@ func one(run *vk.Run, cfg string, st *stores.Opened, offs []ebu.Offset, batch, L
 		faults.ByKind["stream"] = map[int]stores.Action{0: stores.Fail}
 	case "store-yield":
 		faults.ByKind["yield"] = map[int]stores.Action{f.K: stores.Fail}
+	case "store-yield-deadline": // the store's own deadline expires: the error wraps a context error, the caller's context is live
+		faults.ByKind["yield"] = map[int]stores.Action{f.K: stores.FailCtx}
+	case "store-read-deadline":
+		faults.ByKind["read"] = map[int]stores.Action{f.K: stores.FailCtx}
 	}
 	opts := []ebu.Option{ebu.WithStore(stores.Wrap(st.Store, faults))}
 	if batch != 0 {
@@ -217,7 +221,7 @@ func one(run *vk.Run, cfg string, st *stores.Opened, offs []ebu.Offset, batch, L
 	}
 	injected := false
 	switch f.Kind {
-	case "store-read", "store-stream", "store-yield":
+	case "store-read", "store-stream", "store-yield", "store-yield-deadline", "store-read-deadline":
 		for _, op := range faults.Snapshot() {
 			if op.Err {
 				injected = true
